@@ -166,6 +166,35 @@ theorem _root_.KafVerif.C29.encoded_recognised (str : Bytes → Bytes) (e : Enve
       exact containsB_self_append _ _ _
   exact ⟨hgo, by rw [isEnvPy_eq_go]; exact hgo, by rw [isEnvJs_eq_go]; exact hgo⟩
 
+/-! ### purity of `EncodeEnvelope` (explicit assumption, validated by the hand-out stability run)
+
+The model's `encode` is a function on immutable values, so an envelope that was handed to a caller
+cannot change when a later envelope is encoded.  For the Go code this is an ASSUMPTION about
+`EncodeEnvelope` (its result must be a fresh slice, not a view of a reused buffer); it is listed in
+`checks/C29.py` ASSUMPTIONS and validated on every run: the harness keeps every returned slice and
+re-checks all of them after each later call, serially and from several goroutines.  The statement
+below is what that run validates: the i-th result of any sequence of encodes is `encode` of the
+i-th envelope, whatever was encoded before or after it. -/
+
+/-- the results a caller holds after encoding `es` in order -/
+def encodeAll (es : List Envelope) : List (Option Bytes) := es.foldl (fun acc e => acc ++ [encode e]) []
+
+theorem encodeAll_eq_map (es : List Envelope) : encodeAll es = es.map encode := by
+  have : ∀ acc, es.foldl (fun acc e => acc ++ [encode e]) acc = acc ++ es.map encode := by
+    induction es with
+    | nil => intro acc; simp
+    | cons e t ih => intro acc; simp [ih]
+  simpa [encodeAll] using this []
+
+/-- **C29 (hand-out stability, model side).** In every sequence of encodes, the i-th returned value
+is the encoding of the i-th envelope — later (or earlier) encodes never alter it. -/
+theorem _root_.KafVerif.C29.handout_stable (es later : List Envelope) (i : Nat) :
+    (encodeAll (es ++ later))[i]? = if i < es.length then (encodeAll es)[i]? else (encodeAll (es ++ later))[i]? := by
+  split
+  · rename_i h
+    rw [encodeAll_eq_map, encodeAll_eq_map, List.map_append, List.getElem?_append_left (by simpa using h)]
+  · rfl
+
 /-! ### the code before the fixes violates agreement (kept so a regression is recognised) -/
 
 /-- `{"kfs_lfs":1}` (13 bytes): JS had no 15-byte minimum. -/
